@@ -289,3 +289,52 @@ def describe(case, obs):
             "observed": obs,
             "specified": "result == expected_new when the script was derived from (old,new); "
                          "ValueError when the script is outside the ed command grammar"}
+
+
+# ---------------------------------------------------------------------------------------------------
+# Tie by regeneration: the control flow of patches_from_ed_script and patch_lines is regenerated from
+# the source on every run (coq/Gen/TrEd.v) and proved equal to the model (Pdiff/EdTie.v, Props/C18Tie.v).
+#
+# str/bytes: lines are code-point lists either way; ONE translation with a leading Coq parameter
+# `is_bytes : bool` (ghost) meaning "the elements of `source` are bytes objects".  isinstance(line, bytes),
+# int() and the pattern match read it (Pdiff/TrPrims.v).  `re_cmd` is None in every call inside /repo: it is
+# left out of the spec, so the translator binds it to its default None.
+from harness import extract, py2coq as _P   # noqa: E402
+
+TIE_FILE = "Props/C18Tie.v"
+
+_PAT = ("coq", "trp_pattern")
+_GROUPS = ("tuple", "str", ("option", "str"), "str")
+_PATCH = ("tuple", "Z", "Z", ("list", "str"))
+
+_F_PARSE = _P.Fun(
+    "tr_patches_from_ed_script", "patches_from_ed_script", [("source", ("list", "str"))], _PATCH,
+    locals={"re_cmd": ("option", _PAT), "i": ("iter", "str"), "patch_re": ("option", _PAT), "line": "str",
+            "match": ("option", _GROUPS), "first_": "str", "last_": ("option", "str"), "cmd": "str",
+            "first": "Z", "last": ("option", "Z"), "lines": ("list", "str"), "c": "str"},
+    fuel={1: "S (length source)", 2: "S (length i)"}, generator=True, ghost=[("is_bytes", "bool")])
+_F_PARSE.narrow = True          # `last` is Optional[int] until `if last is None: last = …`, an int afterwards (yielded)
+
+_F_APPLY = _P.Fun(
+    "tr_patch_lines", "patch_lines", [("lines", ("list", "str")), ("patches", ("list", _PATCH))], ("list", "str"),
+    locals={"first": "Z", "last": "Z", "args": ("list", "str")})
+_F_APPLY.result_var = "lines"   # patch_lines changes `lines` in place and returns None: the final `lines` is returned
+
+TR_MODULE = _P.Module(
+    "TrEd", "lib/debian/debian_support.py",
+    funs=[_F_PARSE, _F_APPLY],
+    calls={
+        "isinstance": _P.Call("trp_isinstance is_bytes", ["str", ("coq", "trp_pytype")], "bool"),
+        "<option>.match": _P.Call("trp_match is_bytes", [("option", _PAT), "str"], ("option", _GROUPS), True),
+        "<tuple>.groups": _P.Call("trp_groups", [_GROUPS], _GROUPS),
+        "int": _P.Call("trp_int is_bytes", ["str"], "Z", True),
+    },
+    consts={"bytes": ("TyBytes", ("coq", "trp_pytype")), "str": ("TyStr", ("coq", "trp_pytype")),
+            "_patch_re_b": ("PatBytes", _PAT), "_patch_re": ("PatStr", _PAT)},
+    imports=["Pdiff.TrPrims"],
+    regexes=[("_patch_re", r'^(\d+)(?:,(\d+))?([acd])$'), ("_patch_re_b", rb'^(\d+)(?:,(\d+))?([acd])$')])
+
+
+@extract.register("TrEd")
+def _gen_tr(repo):
+    return _P.translate_module(repo, TR_MODULE)
